@@ -33,7 +33,7 @@ func (r *vssRecorder) FlagMisbehavior(i int, log string) {
 }
 
 var vssVectorKinds = []string{"honest", "alt", "wrongSizeShort", "wrongSizeLong", "missingElement", "badEncoding", "offCurve", "notInG2", "smallOrderAnnihilated", "cancellingOutsideG2", "empty", "unknownTag"}
-var vssShareKinds = []string{"honest", "alt", "plusOne", "zero", "geR", "wrongSize", "badTag", "empty"}
+var vssShareKinds = []string{"honest", "alt", "plusOne", "zero", "geR", "wrongSize", "badTag", "empty", "plusR"}
 
 func vssDeal(g *gen.G, n, t, dealer int, seed []byte) *vssRecorder {
 	rec := &vssRecorder{shares: make([][]byte, n)}
@@ -112,6 +112,9 @@ func vssShare(kind string, hon, alt *vssRecorder, me int) []byte {
 			x.SetInt64(1)
 		}
 		copy(sh[1:], scalarBytes(x))
+	case "plusR": // the right residue in a non-canonical encoding (x + r still fits in 32 bytes): not a valid share
+		x := new(big.Int).SetBytes(sh[1:])
+		copy(sh[1:], x.Add(x, blsR).FillBytes(make([]byte, 32)))
 	case "zero":
 		copy(sh[1:], make([]byte, 32))
 	case "geR":
@@ -139,7 +142,22 @@ func TestC08_PlainVSS(t *testing.T) {
 		if dealer == me {
 			dealer = (me + 1) % n
 		}
-		hon := vssDeal(g, n, th, dealer, g.Bytes("seed", 32, 32))
+		seed := g.Bytes("seed", 32, 32)
+		hon := vssDeal(g, n, th, dealer, seed)
+		if g.Chance("smallShare", 4, 5) {
+			// a dealer chooses its polynomial: look for one whose share for this receiver is small enough for x + r to
+			// fit in 255 bits (the width scalar arithmetic is exact for), about one seed in ten
+			limit := new(big.Int).Sub(new(big.Int).Lsh(one, 255), blsR)
+			for try := 0; try < 60 && new(big.Int).SetBytes(hon.shares[me][1:]).Cmp(limit) >= 0; try++ {
+				seed = append([]byte{}, seed...)
+				seed[31]++
+				seed[30] ^= byte(try)
+				hon = vssDeal(g, n, th, dealer, seed)
+			}
+			if new(big.Int).SetBytes(hon.shares[me][1:]).Cmp(limit) < 0 {
+				g.Class("plainVSS:share+r fits in 255 bits")
+			}
+		}
 		alt := vssDeal(g, n, th, dealer, g.Bytes("seed2", 32, 32))
 		if bytes.Equal(hon.vector, alt.vector) {
 			g.Skip("equal seeds")
@@ -236,5 +254,5 @@ func TestC08_PlainVSS(t *testing.T) {
 		}
 		g.NonTrivial()
 	})
-	gen.Exhaustive("C08(g): for the drawn (n, t, receiver, seeds): every order of {V,S}, {V,S,V'}, {V,S,S'}, {V,S,V',S'} (38 orders) × 12 kinds of vector-channel message × 8 kinds of share")
+	gen.Exhaustive("C08(g): for the drawn (n, t, receiver, seeds): every order of {V,S}, {V,S,V'}, {V,S,S'}, {V,S,V',S'} (38 orders) × 12 kinds of vector-channel message × 9 kinds of share")
 }
